@@ -26,7 +26,7 @@ def run(pid, part, tier, seed, tmp, extra=None):
     if part.get("only"):
         cmd += ["-only", part["only"]]
     if tier == "thorough":
-        cmd += ["-solver2", "z3"]
+        cmd += ["-solver2", "cvc5"]
     if extra:
         cmd += extra
     rc, out, dt = driver.sh(cmd, cwd=E1DIR, timeout=part.get("timeout", {"quick": 1800, "thorough": 6 * 3600})[tier])
